@@ -202,6 +202,10 @@ class Image:
         return SparseFile(self, name, log)
 
 
+TRACK = None          # when a list: every SparseFile created is appended (C09 collects their mutation logs)
+PERMISSIVE = False    # when True: write()/truncate() are recorded and *accepted* (like a handle opened r+b) instead of raising
+
+
 class SparseFile(io.RawIOBase):
     """read-only file object over an Image. Counts bytes read and records every call."""
 
@@ -215,6 +219,8 @@ class SparseFile(io.RawIOBase):
         self.mutations: list[str] = []
         if name is not None:
             self.name = name
+        if TRACK is not None:
+            TRACK.append(self)
 
     def readable(self):
         return True
@@ -223,7 +229,7 @@ class SparseFile(io.RawIOBase):
         return True
 
     def writable(self):
-        return False
+        return bool(PERMISSIVE)
 
     def seek(self, pos, whence=0):
         if whence == 0:
@@ -262,10 +268,16 @@ class SparseFile(io.RawIOBase):
 
     def write(self, *a, **k):
         self.mutations.append("write")
+        if PERMISSIVE:
+            n = len(a[0]) if a else 0
+            self._pos += n
+            return n
         raise io.UnsupportedOperation("write")
 
     def truncate(self, *a, **k):
         self.mutations.append("truncate")
+        if PERMISSIVE:
+            return self._pos
         raise io.UnsupportedOperation("truncate")
 
 
